@@ -627,6 +627,8 @@ def gen_direct(r, uid0=1, malformed=False):
     jobs = r.sample(_JOBS, njobs)
     digs = r.sample(_DIG, r.randint(1, 3))
     evs = []
+    # host time as recorded in the field is epoch scale (~2^41 us): still exact on the 1/8 us grid
+    epoch = r.choice([0.0, 0.0, 0.0, 2.0 ** 41 + r.randrange(0, 1 << 20)])
     for i in range(n):
         job = r.choice(jobs)
         ph = "X" if r.random() < 0.93 else "C"
@@ -634,7 +636,7 @@ def gen_direct(r, uid0=1, malformed=False):
         if ph == "C":
             name = name.strip()        # CounterEvents.__init__ strips the name at export time (not a comm stage effect)
         e = {"uid": uid0 + i, "ph": ph, "name": name, "job": job, "pid": jobs.index(job) % 2, "tid": r.randint(0, 3),
-             "ts": r.randint(0, 4000) / 8.0, "dur": r.randint(1, 400) / 8.0,
+             "ts": epoch + r.randint(0, 4000) / 8.0, "dur": r.randint(1, 400) / 8.0,
              "peer": gen_peer(r, 0.08 if malformed else 0.0)}
         e["peers"], form = gen_peers(r, 0.22, 0.3 if malformed else 0.0)
         if form is not None:
@@ -647,6 +649,7 @@ def gen_e2e(r):
     """multi-rank, several jobs per rank, sequences interleaved in time; slices of one rank occupy disjoint slots
     (plus optional enclosing host slices) so that overlap resolution has nothing to do"""
     ranks = r.randint(1, 4)
+    epoch = r.choice([0.0, 0.0, 0.0, 2.0 ** 41 + r.randrange(0, 1 << 20)])      # epoch-scale host time (exact on the grid)
     files, uid = [], 1
     opts = r.choice([[], [], ["--flow"], ["--keep_names"], ["-c", "@LOG"]])
     shared_digs = r.sample(_DIG, 3)
@@ -663,6 +666,7 @@ def gen_e2e(r):
                 if (j, dg) not in [(a, b) for a, b, _ in seqs]:
                     seqs.append((j, dg, r.choice([1, 2, 2, 3, 4, 6])))
         base = 100.0 * pid if r.random() < 0.5 else 0.0
+        base += epoch
         for s in slots:
             t0 = base + 16.0 * s + r.randint(0, 8) / 8.0
             dur = r.randint(1, 48) / 8.0
